@@ -58,6 +58,15 @@ pub fn drive(t: &mut Tracer, tier: &str, seed: u64) {
         hash_event(t, &sess, None, &[]);
         hash_event(t, &sess, None, &a);
     }
+    // OpenSSL-made corpus: the library must reproduce the digests the specification is anchored to
+    let corpus = concat!(env!("CARGO_MANIFEST_DIR"), "/../corpus/sm3_openssl_bytes.ndjson");
+    if let Ok(text) = std::fs::read_to_string(corpus) {
+        for (i, line) in text.lines().enumerate() {
+            let v: serde_json::Value = serde_json::from_str(line).unwrap();
+            let m: Vec<u8> = v["msg"].as_array().unwrap().iter().map(|x| x.as_u64().unwrap() as u8).collect();
+            hash_event(t, &format!("sm3/corpus{}", i), None, &m);
+        }
+    }
     // boundary lengths around multiples of 64 for longer messages
     let g = Gen::new("mix", rng.below(1 << 20));
     let blocks: &[usize] = if thorough { &[16, 33, 64, 100, 255, 256, 1024] } else { &[16, 33] };
